@@ -41,7 +41,15 @@ D2 == {Bin(op, x, y) : op \in BinOps, x \in Core, y \in IF Deep THEN Atoms ELSE 
 Conds == {CmpE(">", A, LN(0)), CmpE("=", B, LN(2)), IsE("null", A), CmpE("<", NP, A)}
 Cases == {CaseE(<<[c |-> c1, v |-> v1]>>, els) : c1 \in Conds, v1 \in {A, LN(1), Bin("+", A, B)}, els \in {None, B, LN(0)}} \cup
          {CaseE(<<[c |-> c1, v |-> LN(1)], [c |-> c2, v |-> NP]>>, els) : c1 \in Conds, c2 \in Conds, els \in {None, LN(7)}}
-Exprs == Atoms \cup D1 \cup D2 \cup Cases
+\* guards: an arm that is not taken is not evaluated - the guarded division idiom, a later arm's condition that would
+\* fail, a unary operator kept away from NULL (rows with a = 0, n.p = 0 and a = NULL exist)
+Guarded == {CaseE(<<[c |-> CmpE("=", x, LN(0)), v |-> LN(0)]>>, Bin(op, B, x)) : x \in {A, NP}, op \in {"/", "%", "div"}} \cup
+           {CaseE(<<[c |-> CmpE("=", A, LN(0)), v |-> LN(0)], [c |-> CmpE(">", Bin("/", B, A), LN(1)), v |-> LN(1)]>>, LN(7)),
+            CaseE(<<[c |-> IsE("null", A), v |-> LN(0)]>>, Un("-", A)),
+            CaseE(<<[c |-> IsE("null", A), v |-> LN(0)]>>, Un("~", A)),
+            CaseE(<<[c |-> CmpE("!=", NP, LN(0)), v |-> Bin("/", A, NP)]>>, LN(0)),
+            CaseE(<<[c |-> CmpE("=", NP, LN(0)), v |-> B], [c |-> CmpE("=", A, LN(0)), v |-> Bin("/", LN(1), NP)]>>, Bin("/", LN(1), A))}
+Exprs == Atoms \cup D1 \cup D2 \cup Cases \cup Guarded
 
 NQR == ColP(<<"n", "q", "r">>)
 Items == {Star, Item(A, ""), Item(A, "x"), Item(NP, ""), Item(NP, "a"), Item(M, ""), Item(Bin("+", A, LN(1)), "b"), Item(NQR, ""),
@@ -55,7 +63,7 @@ Init ==
     /\ \/ \E tbl \in SeqsFromTo(Rows, 1, 1) \cup {<<>>} \cup (IF MaxRows >= 2 THEN {<<r1, r2>> : r1 \in Rows, r2 \in Rows} ELSE {}) :
           \E e \in Exprs :
             /\ cs = [fam |-> "expr", q |-> [BaseQ EXCEPT !.sel = <<Item(e, "v")>>], doc |-> Doc1("t", tbl)]
-            /\ (Len(tbl) = 2 => e \in Atoms \cup Core \cup Cases)
+            /\ (Len(tbl) = 2 => e \in Atoms \cup Core \cup Cases \cup Guarded)
             /\ Defined(cs.q, cs.doc)
        \/ \E tbl \in SeqsUpTo(Rows, MaxRows) : \E sl \in Lists : \E w \in Wheres :
             /\ cs = [fam |-> "list", q |-> [BaseQ EXCEPT !.sel = sl, !.where = w], doc |-> Doc1("t", tbl)]
